@@ -14,7 +14,7 @@ use ironbeam::combiners::{AverageF64, DistinctCount, DistinctSet, Max, Min, Sum,
 use std::collections::BTreeSet;
 
 #[derive(Clone, Debug)]
-enum Op<V> {
+pub(crate) enum Op<V> {
     A(Vec<V>),
     B(Vec<V>),
     P(Vec<V>),
@@ -55,7 +55,7 @@ where
 }
 
 /// (tree output, fold output, canonical form of the tree's final accumulator before `finish`)
-fn run_case<V: Clone + Send + Sync + 'static, A, O, C>(
+pub(crate) fn run_case<V: Clone + Send + Sync + 'static, A, O, C>(
     c: &C,
     prog: &[Op<V>],
     all: &[V],
@@ -105,13 +105,13 @@ impl Milli {
     }
 }
 
-fn enc<V>(xs: &[V], s: &dyn Fn(&V) -> String) -> String {
+pub(crate) fn enc<V>(xs: &[V], s: &dyn Fn(&V) -> String) -> String {
     xs.iter().map(|x| s(x)).collect::<Vec<_>>().join(",")
 }
-fn enc_all<V>(xs: &[V], s: &dyn Fn(&V) -> String) -> String {
+pub(crate) fn enc_all<V>(xs: &[V], s: &dyn Fn(&V) -> String) -> String {
     if xs.is_empty() { "-".into() } else { enc(xs, s) }
 }
-fn enc_prog<V>(prog: &[Op<V>], s: &dyn Fn(&V) -> String) -> String {
+pub(crate) fn enc_prog<V>(prog: &[Op<V>], s: &dyn Fn(&V) -> String) -> String {
     prog.iter()
         .map(|op| match op {
             Op::A(xs) => format!("A:{}", enc(xs, s)),
@@ -122,7 +122,7 @@ fn enc_prog<V>(prog: &[Op<V>], s: &dyn Fn(&V) -> String) -> String {
         .collect::<Vec<_>>()
         .join(" ")
 }
-fn show_ints(v: &[i64]) -> String {
+pub(crate) fn show_ints(v: &[i64]) -> String {
     if v.is_empty() { "-".into() } else { v.iter().map(|x| x.to_string()).collect::<Vec<_>>().join(",") }
 }
 fn show_f(x: f64) -> String {
@@ -133,7 +133,7 @@ fn close(a: f64, b: f64) -> bool {
 }
 
 #[derive(Clone, Copy, PartialEq, Eq, Debug)]
-enum Name {
+pub(crate) enum Name {
     Count,
     Sum,
     Min,
@@ -144,9 +144,9 @@ enum Name {
     DSet,
     TopK,
 }
-const INT_NAMES: [Name; 7] = [Name::Count, Name::Sum, Name::Min, Name::Max, Name::DCount, Name::DSet, Name::TopK];
+pub(crate) const INT_NAMES: [Name; 7] = [Name::Count, Name::Sum, Name::Min, Name::Max, Name::DCount, Name::DSet, Name::TopK];
 impl Name {
-    fn s(self) -> &'static str {
+    pub(crate) fn s(self) -> &'static str {
         match self {
             Name::Count => "count",
             Name::Sum => "sum",
@@ -161,7 +161,7 @@ impl Name {
     }
 }
 
-fn flat<V: Clone>(prog: &[Op<V>]) -> Vec<V> {
+pub(crate) fn flat<V: Clone>(prog: &[Op<V>]) -> Vec<V> {
     let mut v = vec![];
     for op in prog {
         match op {
@@ -174,7 +174,7 @@ fn flat<V: Clone>(prog: &[Op<V>]) -> Vec<V> {
 
 /// emit one case for an integer-valued combiner. `all` is the whole input in original order; the
 /// program's leaves hold the same multiset of values.
-fn one_int(cx: &mut Ctx, name: Name, k: usize, all: &[i64], prog: &[Op<i64>]) {
+pub(crate) fn one_int(cx: &mut Ctx, name: Name, k: usize, all: &[i64], prog: &[Op<i64>]) {
     let s = |x: &i64| x.to_string();
     let req = format!("COMB {} {} {} | {}", name.s(), k, enc_all(all, &s), enc_prog(prog, &s));
     // reference values (independent of the implementation and the model)
@@ -334,7 +334,7 @@ fn stats<V>(cx: &mut Ctx, name: Name, k: usize, n: usize, prog: &[Op<V>]) {
 // ---------- program construction ----------
 
 /// all ordered splits of `0..n` into exactly `p` contiguous (possibly empty) parts: cut positions
-fn splits(n: usize, p: usize) -> Vec<Vec<usize>> {
+pub(crate) fn splits(n: usize, p: usize) -> Vec<Vec<usize>> {
     // non-decreasing cut vectors c_1..c_{p-1} in 0..=n
     fn rec(n: usize, left: usize, lo: usize, cur: &mut Vec<usize>, out: &mut Vec<Vec<usize>>) {
         if left == 0 {
@@ -351,7 +351,7 @@ fn splits(n: usize, p: usize) -> Vec<Vec<usize>> {
     rec(n, p - 1, 0, &mut vec![], &mut out);
     out
 }
-fn cut<V: Clone>(all: &[V], cuts: &[usize]) -> Vec<Vec<V>> {
+pub(crate) fn cut<V: Clone>(all: &[V], cuts: &[usize]) -> Vec<Vec<V>> {
     let mut parts = vec![];
     let mut prev = 0;
     for &c in cuts {
@@ -363,7 +363,7 @@ fn cut<V: Clone>(all: &[V], cuts: &[usize]) -> Vec<Vec<V>> {
 }
 
 /// binary tree shapes over `p` leaves as postfix skeletons: `false` = next leaf, `true` = merge
-fn shapes(p: usize) -> Vec<Vec<bool>> {
+pub(crate) fn shapes(p: usize) -> Vec<Vec<bool>> {
     if p == 1 {
         return vec![vec![false]];
     }
@@ -380,7 +380,7 @@ fn shapes(p: usize) -> Vec<Vec<bool>> {
     }
     out
 }
-fn left_deep(p: usize) -> Vec<bool> {
+pub(crate) fn left_deep(p: usize) -> Vec<bool> {
     let mut s = vec![false];
     for _ in 1..p {
         s.push(false);
@@ -388,12 +388,12 @@ fn left_deep(p: usize) -> Vec<bool> {
     }
     s
 }
-fn right_deep(p: usize) -> Vec<bool> {
+pub(crate) fn right_deep(p: usize) -> Vec<bool> {
     let mut s = vec![false; p];
     s.extend(std::iter::repeat(true).take(p - 1));
     s
 }
-fn random_shape(cx: &mut Ctx, p: usize) -> Vec<bool> {
+pub(crate) fn random_shape(cx: &mut Ctx, p: usize) -> Vec<bool> {
     if p == 1 {
         return vec![false];
     }
@@ -403,7 +403,7 @@ fn random_shape(cx: &mut Ctx, p: usize) -> Vec<bool> {
     s.push(true);
     s
 }
-fn permutations(p: usize) -> Vec<Vec<usize>> {
+pub(crate) fn permutations(p: usize) -> Vec<Vec<usize>> {
     fn rec(rest: &mut Vec<usize>, cur: &mut Vec<usize>, out: &mut Vec<Vec<usize>>) {
         if rest.is_empty() {
             out.push(cur.clone());
@@ -422,7 +422,7 @@ fn permutations(p: usize) -> Vec<Vec<usize>> {
     out
 }
 /// leaves in the given order, `lifted` bit i = leaf i built via build_from_group
-fn assemble<V: Clone>(parts: &[Vec<V>], order: &[usize], lifted: u32, shape: &[bool]) -> Vec<Op<V>> {
+pub(crate) fn assemble<V: Clone>(parts: &[Vec<V>], order: &[usize], lifted: u32, shape: &[bool]) -> Vec<Op<V>> {
     let mut prog = vec![];
     let mut next = 0;
     for &m in shape {
@@ -437,14 +437,14 @@ fn assemble<V: Clone>(parts: &[Vec<V>], order: &[usize], lifted: u32, shape: &[b
     }
     prog
 }
-fn shuffle(cx: &mut Ctx, v: &mut Vec<usize>) {
+pub(crate) fn shuffle(cx: &mut Ctx, v: &mut Vec<usize>) {
     for i in (1..v.len()).rev() {
         let j = cx.rng.below(i + 1);
         v.swap(i, j);
     }
 }
 
-fn all_seqs(alpha: &[i64], max_len: usize) -> Vec<Vec<i64>> {
+pub(crate) fn all_seqs(alpha: &[i64], max_len: usize) -> Vec<Vec<i64>> {
     let mut out: Vec<Vec<i64>> = vec![vec![]];
     let mut frontier: Vec<Vec<i64>> = vec![vec![]];
     for _ in 0..max_len {
@@ -496,7 +496,7 @@ fn every_combiner(cx: &mut Ctx, all: &[i64], prog: &[Op<i64>]) {
 
 /// size of an exhaustive scope (NOT scaled by the search tier's 10x budget: it is an exponent;
 /// the search tier re-runs the quick scope with other seeds for the seeded shapes and a larger random block)
-fn scope(cx: &Ctx, quick: usize, thorough: usize) -> usize {
+pub(crate) fn scope(cx: &Ctx, quick: usize, thorough: usize) -> usize {
     match cx.tier {
         crate::ctx::Tier::Thorough => thorough,
         _ => quick,
@@ -623,4 +623,7 @@ pub fn run(cx: &mut Ctx) {
         let fname = if cx.rng.chance(1, 2) { Name::Avg } else { Name::FSum };
         one_float(cx, fname, &fall, &fprog);
     }
+
+    // (4)-(7) round 3: large sizes, IEEE doubles, an element type with distinguishable ties, KMV (c06_ext.rs)
+    crate::c06_ext::run_ext(cx);
 }
